@@ -1,6 +1,7 @@
 """C17 — The HTTP server is a faithful store: what goes in comes out."""
 import json
 import os
+import re
 
 import common as C
 
@@ -10,8 +11,10 @@ def build(ctx):
     ctx.log("translate", out)
     if not ok:
         ctx.diag.append("translator failed: " + out[-300:])
-    C.prove(ctx, ["Props/C17.v", "Props/C17Lib.v"],
-            ["Oblig/C17Obl.v", "Proto/ServerFacts.v", "Model/RouteTable.v", "Oblig/C17LibObl.v", "Proto/ServerLibFacts.v"])
+    C.prove(ctx, ["Props/C17.v", "Props/C17Lib.v", "Props/C17Share.v"],
+            ["Oblig/C17Obl.v", "Proto/ServerFacts.v", "Model/RouteTable.v", "Oblig/C17LibObl.v", "Proto/ServerLibFacts.v",
+             "Oblig/C17ShareObl.v", "Proto/ServerShareFacts.v", "Proto/ServerShareStable.v", "Proto/ServerShareDerived.v",
+             "Model/ShareTable.v"])
     ok, out = C.build_harness()
     ctx.log("go build", out)
     if not ok:
@@ -25,6 +28,10 @@ def build(ctx):
     ctx.log("ocaml c17lib", out[-3000:])
     if not ok:
         ctx.diag.append("extracted library interpretation (ServerLib) does not build: " + out[-600:])
+    ok, out = C.build_ocaml("c17share")
+    ctx.log("ocaml c17share", out[-3000:])
+    if not ok:
+        ctx.diag.append("extracted pointer-graph store (ServerShare) does not build: " + out[-600:])
     return True
 
 
@@ -85,10 +92,119 @@ def lib_correspondence(ctx, n):
         pass
 
 
+_STRIP = re.compile(r"(?<![\w])([FBE])\d+")
+
+
+def _views(line):
+    """impl / model observation line -> {id: view text without pointer names}"""
+    parts = line.rstrip("\n").split("\t")
+    out = {}
+    if len(parts) < 2 or parts[1] == "-":
+        return out
+    for item in parts[1].split(" ; "):
+        sym, _, rest = item.partition(" ")
+        out[sym] = _STRIP.sub(r"\1", rest)
+    return out
+
+
+def share_correspondence(ctx, n, sub="share", compare=True):
+    """phase 4: random histories that derive files and then operate on the derived ones and on their
+    sources (no admissibility filter) through the real handler; after every request every stored
+    file's modelled fields and the pointer graph below it (read off the real objects) against the
+    extracted pointer-graph store of Proto/ServerShare.v; the hypotheses of Props/C17Share.v evaluated by the
+    extracted model at every step and their conclusions asked of the implementation's observations;
+    the statements asked of the implementation directly with real pointer identities (share.jsonl)"""
+    d = os.path.join(ctx.rundir, sub)
+    os.makedirs(d, exist_ok=True)
+    exe = os.path.join(C.BIN, "c17")
+    rc, out = C.sh([exe, "share", "-out", d, "-n", str(n), "-corpus", os.path.join(corpus(), "share")], timeout=3000)
+    ctx.log(sub, out[-1000:])
+    if rc != 0:
+        ctx.diag.append("share correspondence crashed rc=%d: %s" % (rc, out[-300:]))
+        return None
+    before = len(ctx.fails)
+    summ = ctx.read_jsonl(os.path.join(d, "share.jsonl"))
+    for f in ctx.fails[before:]:
+        f["input"] = f.get("case")
+    if not compare:
+        return summ
+    drv = os.path.join(C.BUILD, "ocaml", "c17share", "driver")
+    if not os.path.exists(drv):
+        ctx.diag.append("share correspondence could not run: no extracted model")
+        return summ
+    cases, model, impl, checks = [os.path.join(d, x) for x in ("sharecases.txt", "sharemodel.txt", "shareimpl.txt", "sharechecks.txt")]
+    rc, out = C.sh("%s %s %s > %s" % (drv, cases, checks, model), timeout=3000)
+    if rc != 0:
+        ctx.diag.append("extracted pointer-graph store crashed: " + out[-300:])
+        return summ
+    ctx.compare("httptest server (stored views + pointer graph after every request) vs extracted pointer-graph store",
+                model, impl, cases)
+    # the theorems' hypotheses, evaluated by the model, and their conclusions on the IMPLEMENTATION's lines
+    stats = {"steps": 0, "read_of_stable_file_checked": 0, "reads_in_all_stable_state_checked": 0,
+             "pure_request_checked": 0, "label_not_well_formed": 0, "target_stable": 0, "target_not_stable": 0,
+             "states_all_stable": 0, "stored_file_observations": 0, "stored_file_observations_stable": 0,
+             "files_stored_by_create": [0, 0], "files_stored_by_flatten_segment_balance": [0, 0],
+             "flatten_stored_result": 0, "flatten_stored_result_label_wf_flat_result": 0}
+    prev = {}
+    for case, chk, obs in zip(open(cases), open(checks), open(impl)):
+        if case.strip() == "S":
+            prev = {}
+            continue
+        cur = _views(obs)
+        f = dict(kv.split("=", 1) for kv in chk.split() if "=" in kv)
+        stats["steps"] += 1
+        if f.get("wf") == "0":
+            stats["label_not_well_formed"] += 1
+        if f.get("t") == "1":
+            stats["target_stable"] += 1
+        elif f.get("t") == "0":
+            stats["target_not_stable"] += 1
+        if f.get("all") == "1":
+            stats["states_all_stable"] += 1
+        if "/" in f.get("post", ""):
+            a, b = f["post"].split("/")
+            stats["stored_file_observations"] += int(b)
+            stats["stored_file_observations_stable"] += int(a)
+        if "/" in f.get("new", ""):
+            a, b = f["new"].split("/")
+            key = "files_stored_by_create" if case.startswith("CREATE") else "files_stored_by_flatten_segment_balance"
+            stats[key][0] += int(a)      # stable
+            stats[key][1] += int(b)      # stored
+        if f.get("wfr") in ("0", "1"):
+            stats["flatten_stored_result"] += 1
+            stats["flatten_stored_result_label_wf_flat_result"] += int(f["wfr"])
+            if f["wfr"] == "1" and f.get("new") not in ("1/1", "0/0"):
+                ctx.diag.append("C17_flatten_result_stable: hypotheses hold, the stored file is not stable in the model: " + case.strip()[:200])
+        same = all(cur.get(k) == v for k, v in prev.items())
+        why = None
+        if f.get("k") in ("pure", "none"):
+            stats["pure_request_checked"] += 1
+            if not same:
+                why = "C17_pure_requests_change_nothing"
+        if f.get("r") == "1" and f.get("wf") == "1" and f.get("t") == "1":
+            stats["read_of_stable_file_checked"] += 1
+            if not same:
+                why = "C17_read_of_stable"
+        if f.get("r") == "1" and f.get("wf") == "1" and f.get("all") == "1":
+            stats["reads_in_all_stable_state_checked"] += 1
+            if not same:
+                why = "C17_stable_class_closed"
+        if why:
+            ctx.diag.append("%s: the hypotheses hold in the model's state, the implementation changed what a stored ID shows: %s" % (why, case.strip()[:300]))
+        prev = cur
+    ctx.cov["share_theorems_on_implementation"] = stats
+    try:
+        ctx.cov["share_histories"] = json.load(open(os.path.join(d, "share.json")))
+    except (OSError, ValueError):
+        pass
+    return summ
+
+
 def search(ctx, factor):
     before = len(ctx.fails)
     oracle(ctx, ctx.scale(1000, 4000) * factor, "search")
     lib_oracle(ctx, ctx.scale(300, 1500) * factor, "search-lib")
+    share_correspondence(ctx, ctx.scale(150, 600) * factor, "search-share", compare=False)
     found = ctx.fails[before:]
     del ctx.fails[before:]
     return found
@@ -144,9 +260,11 @@ def run(ctx):
     ctx.trusted += ["projection of an *ach.File onto the views of Proto/ServerLib.v and the label extraction by pointer identity (harness/cmd/c17/libcorr.go); the field classes File.Create / Batch.build are modelled to write (harness/cmd/c17/lib.go)",
                     "route/status table analysis of translator/routes.go (syntactic: the r.Methods(..).Path(..).Handler(httptransport.NewServer(..)) statements of MakeHTTPHandler, the switch of codeFrom, the last return of encodeTextResponse)",
                     "term evaluator of harness/cmd/c17 (replays the library calls a term names on a freshly parsed copy; re-implements the few statements of service.CreateBatch/BalanceFile and repository.DeleteBatch)",
-                    "gorilla/mux routing, go-kit transport and encoding/json of responses are exercised through httptest, not modelled"]
+                    "gorilla/mux routing, go-kit transport and encoding/json of responses are exercised through httptest, not modelled",
+                    "phase 4: the projection of a stored *ach.File onto the views of Proto/ServerShare.v, the pointer identities (Batcher interface value / *IATBatchHeader / *EntryDetail) and the label extraction of harness/cmd/c17/share.go (by pointer, by content when no pointer matches); the syntactic object-flow analysis of translator/sharing.go"]
     ctx.assumptions += ["library outcomes (flatten/segment/balance succeeded, credit/debit half empty, batch id already present, batch body decodes, id read from a JSON body) enter the model as labels of the request; the theorems hold for every labelling and the correspondence run checks each label against the library on an independent copy",
-                        "records shared between a derived file and its source (File.FlattenBatches reuses the source's batch headers and entry pointers, SegmentFile the entries) are not modelled: generated histories send no flatten/segment/balance to such files, no batch edits to flatten relatives and no Create-running endpoint to a flatten source (docs/C17.md)",
+                        "records shared between a derived file and its source are outside the term machine (Server.v) and the value machine (ServerLib.v): their generated histories send no flatten/segment/balance to such files, no batch edits to flatten relatives and no Create-running endpoint to a flatten source; phase 4 (Proto/ServerShare.v, Props/C17Share.v) models the pointer graph ID -> file object -> batch cells -> entry cells with every route's heap writes and its histories have no such filter",
+                        "ServerShare's view of an entry is its trace number, of a batch header / control the fields File.Create, Batch.build and SegmentFile read or write; control records computed by a Batch.Create, offset entries of BalanceFile, grouping / split of entries and verdicts are labels read off the real objects; Addenda / ADV sequence numbers and nil batch headers are outside it (covered by `c17 lib`)",
                         "C17_unchanged_if_tabulated takes idempotence of File.Create on the stored value (C05) and purity of FlattenBatches/SegmentFile on a tabulated receiver (C14) as hypotheses; Props/C17Lib.v discharges them for the concrete interpretation of Proto/ServerLib.v (stored value = C05's Offsets.file x C14's Purity.file x ID x the validateOpts bits File.Create reads): Create idempotent and read-only calls pure for every value; FlattenBatches/SegmentFile leave the receiver alone only when its entries carry the batch ODFI (Batch.Create ran) and no mixed IAT batch is segmented — refuted otherwise (known findings)",
                         "ServerLib's views leave out Addenda05 / IAT addenda sequence numbers and ADVEntryDetail.SequenceNumber (rewritten through the same shared entry pointers) and the ADV controls: those are covered by the stored-object photographs of `c17 lib` only; library outcomes outside the views are labels, arbitrary in the theorems, measured on an independent copy / by pointer identity in the correspondence"]
     if not build(ctx):
@@ -157,6 +275,8 @@ def run(ctx):
     ctx.add_summary(summ, "httptest server vs ideal map replayed with the library")
     lsum = lib_oracle(ctx, ctx.scale(700, 8000))
     ctx.add_summary(lsum, "stored objects before/after every request")
+    ssum = share_correspondence(ctx, ctx.scale(220, 3000))
+    ctx.add_summary(ssum, "requests on files that share records, real pointer graph")
     if lsum:
         ctx.cov["stored_object_changes_by_request"] = lsum.get("changes", {})
         ctx.cov["stored_object_change_samples"] = lsum.get("change_samples", {})
